@@ -981,6 +981,94 @@ pub fn mixin_get(scope: ScopeId) -> SVec<Mixin> {
     })
 }
 
+/// Structural dump of the whole scope tree keyed by name path (independent of
+/// interning order): kind, owner, locals, imports, wildcards, mixins and
+/// generic delegations of every scope that carries any of them.
+#[cfg(veryl_verif)]
+pub fn verif_dump_scopes() -> String {
+    SCOPE_ARENA.with(|f| {
+        let arena = f.borrow();
+        let path = |id: ScopeId| {
+            arena
+                .name_path(id)
+                .iter()
+                .map(|x| x.to_string())
+                .collect::<Vec<_>>()
+                .join("::")
+        };
+        let mut lines: Vec<String> = Vec::new();
+        for s in &arena.scopes {
+            let mut locals: Vec<String> = s
+                .locals
+                .iter()
+                .map(|(k, v)| format!("{k}={:?}", v.iter().map(|x| x.0).collect::<Vec<_>>()))
+                .collect();
+            locals.sort();
+            let mut imports: Vec<String> = s
+                .imports
+                .iter()
+                .map(|(k, v)| {
+                    let b: Vec<String> = v
+                        .iter()
+                        .map(|b| format!("{}/{}/{}", b.symbol.0, b.define_context, b.package_path))
+                        .collect();
+                    format!("{k}={}", b.join("|"))
+                })
+                .collect();
+            imports.sort();
+            let wildcards: Vec<String> = s
+                .wildcards
+                .iter()
+                .map(|w| {
+                    format!(
+                        "{}/{}/{}/{}",
+                        path(w.source),
+                        w.define_context,
+                        w.source_define_context,
+                        w.package_path
+                    )
+                })
+                .collect();
+            let mixins: Vec<String> = s
+                .mixins
+                .iter()
+                .map(|w| {
+                    format!(
+                        "{}/{}/{}/{}",
+                        path(w.source),
+                        w.define_context,
+                        w.source_define_context,
+                        w.source_path
+                    )
+                })
+                .collect();
+            let delegation = arena.generic_delegations.get(&s.id).map(|x| path(*x));
+            if s.owner.is_none()
+                && locals.is_empty()
+                && imports.is_empty()
+                && wildcards.is_empty()
+                && mixins.is_empty()
+                && delegation.is_none()
+            {
+                continue;
+            }
+            lines.push(format!(
+                "{} : {:?} : owner={:?} : locals={:?} : imports={:?} : wildcards={:?} : mixins={:?} : delegation={:?}",
+                path(s.id),
+                s.kind,
+                s.owner.map(|x| x.0),
+                locals,
+                imports,
+                wildcards,
+                mixins,
+                delegation
+            ));
+        }
+        lines.sort();
+        lines.join("\n")
+    })
+}
+
 #[cfg(test)]
 mod tests {
     use super::*;
